@@ -12,6 +12,9 @@
 (*   O.fd   stack offsets of stack-passed arguments (FuncDetail; their correctness is C06)                  *)
 (*   O.fr   the frame record: every FuncFrame accessor after finalize()                  -- what is DECLARED *)
 (*   O.pro, O.epi   instruction lists (mnemonic + operand shapes)                        -- what is EXECUTED *)
+(*   O.body, O.slots  Compiler-derived functions only (else empty): the REAL instructions between prolog and *)
+(*          epilog, executed in place of the abstract body step, and the home slot of every work register   *)
+(*          (base register, offset, size, the stack-passed argument it is bound to) read back from the pass *)
 (*                                                                                                          *)
 (* Values are symbolic: Entry(r) = content of register r at function entry, RetAddr, Arg(k), Junk, or a     *)
 (* concrete integer (stack addresses: the entry SP is concrete, so and/sub/push/pre-index are arithmetic).  *)
@@ -89,8 +92,12 @@ PresWidth(O, g) ==
   ELSE IF g = 1 THEN (IF IsA64(c) THEN 8 ELSE 16)
   ELSE 8
 
+(* x86-32: 4 (what the 32-bit conventions themselves guarantee).  The Compiler raises a function's convention to *)
+(* the ENVIRONMENT's stack alignment (BaseCompiler::new_func_node); for Linux/i386 that is 16 (psABI 2.2.2).     *)
 NatAlign(O) == LET c == O.cfg IN
-  IF IsLight(c) THEN O.cc.nat ELSE IF IsX86(c) THEN 4 ELSE 16
+  IF IsLight(c) THEN O.cc.nat
+  ELSE IF IsX86(c) THEN (IF c.src = "compiler" /\ c.env = "x86-sysv" THEN 16 ELSE 4)
+  ELSE 16
 AbiRed(O)   == IF SysVLike(O.cfg) THEN 128 ELSE 0          \* bytes below SP the callee may use
 AbiSpill(O) == IF Win64Like(O.cfg) THEN 32 ELSE 0          \* bytes above the return address the callee may use
 CalleePops(O) == LET c == O.cfg IN
@@ -108,7 +115,7 @@ NeedAlign(O) == LET e == Eff(O) IN e.ls > 0 \/ e.cs > 0 \/ e.calls = 1
 ------------------------------------------------------------------------------
 (* Program and register universe *)
 BodyIns == [m |-> "BODY", o |-> <<>>]
-Prog(O) == O.pro \o <<BodyIns>> \o O.epi
+Prog(O) == O.pro \o <<BodyIns>> \o O.body \o O.epi
 
 SPK(O) == <<0, SpId(O.cfg)>>
 FPK(O) == <<0, FpId(O.cfg)>>
@@ -135,10 +142,18 @@ Load(m, addr, sz) ==
 JunkRange(m, lo, hi) ==       \* the body overwrites [lo, hi)
   [a \in DOMAIN m |-> IF lo < hi /\ Overlap(a, m[a].sz, lo, hi - lo) THEN [sz |-> m[a].sz, v |-> Junk, w |-> 0] ELSE m[a]]
 
-(* A prolog/epilog store may touch neither the return address nor the caller's frame (the home/spill area *)
-(* the ABI grants is the exception), nor - once the body has run - anything below the body's SP.           *)
+(* A store of the function may touch neither the return address nor the caller's frame, nor - once the body  *)
+(* is reached - anything below the body's SP.  Two exceptions the ABI grants: the home/spill area, and the    *)
+(* function's OWN incoming stack argument slots - but a store must stay inside ONE such slot (the argument's  *)
+(* type size rounded up to the stack slot unit): it may not run into the neighbouring argument.               *)
+AlignUp(n, a) == ((n + a - 1) \div a) * a
+ArgSlotSize(O, k) == AlignUp(Max2(O.fd.stackargsz[k], 1), RegSize(O.cfg))
+InOwnArgSlot(O, E, addr, sz) ==
+  \E k \in 1..Len(O.fd.stackargs) :
+     LET lo == E + RetSize(O.cfg) + O.fd.stackargs[k] IN addr >= lo /\ addr + sz <= lo + ArgSlotSize(O, k)
 StoreFaults(O, st, addr, sz) ==
   (IF addr + sz > st.esp /\ ~(addr >= st.esp + RetSize(O.cfg) /\ addr + sz <= st.esp + RetSize(O.cfg) + AbiSpill(O))
+      /\ ~InOwnArgSlot(O, st.esp, addr, sz)
      THEN {"StoreOutside"} ELSE {})
   \cup (IF st.bsp # -1 /\ addr < st.bsp - AbiRed(O) THEN {"StoreBelow"} ELSE {})
 
@@ -153,10 +168,14 @@ DoStore(O, st, addr, sz, r) ==
 NoOps == {"emms", "endbr32", "endbr64", "bti", "nop"}
 MovLike == {"mov", "movaps", "movups", "vmovaps", "vmovups", "movapd", "movupd", "vmovapd", "vmovupd",
             "movdqa", "movdqu", "vmovdqa", "vmovdqu", "vmovdqa32", "vmovdqu32", "vmovdqa64", "vmovdqu64",
-            "kmovb", "kmovw", "kmovd", "kmovq", "movq", "movd", "vmovq", "vmovd"}
+            "kmovb", "kmovw", "kmovd", "kmovq", "movq", "movd", "vmovq", "vmovd", "movss", "movsd", "vmovss", "vmovsd"}
+(* register/memory arithmetic of real function bodies: the result is an uninterpreted value (Junk); what matters *)
+(* is WHERE it is written                                                                                        *)
+AluOps == {"add", "sub", "and", "or", "xor", "imul", "paddd", "vpaddd", "pxor", "vpxor", "addps", "addpd", "addss", "addsd",
+           "vaddps", "vaddpd", "vaddss", "vaddsd", "xorps", "vxorps"}
 AlignedMov == {"movaps", "vmovaps", "movapd", "vmovapd", "movdqa", "vmovdqa", "vmovdqa32", "vmovdqa64"}
-FixedSize(m) == IF m = "kmovb" THEN 1 ELSE IF m = "kmovw" THEN 2 ELSE IF m \in {"kmovd", "movd", "vmovd"} THEN 4
-                ELSE IF m \in {"kmovq", "movq", "vmovq"} THEN 8 ELSE 0
+FixedSize(m) == IF m = "kmovb" THEN 1 ELSE IF m = "kmovw" THEN 2 ELSE IF m \in {"kmovd", "movd", "vmovd", "movss", "vmovss"} THEN 4
+                ELSE IF m \in {"kmovq", "movq", "vmovq", "movsd", "vmovsd"} THEN 8 ELSE 0
 OpSize(m, r, mo) == IF FixedSize(m) > 0 THEN FixedSize(m) ELSE IF mo.sz > 0 THEN mo.sz ELSE r.sz
 AlignFault(m, addr, sz) == IF m \in AlignedMov /\ sz > 0 /\ addr % sz # 0 THEN {"MisalignedVec"} ELSE {}
 
@@ -211,6 +230,19 @@ X86Exec(O, st, ins) ==
     ELSE LET r == Load(st.mem, sp.a, rs)
              imm == IF n = 1 THEN ops[1].off ELSE 0
          IN [SetReg(st, SPK(O), IntR(sp.a + rs + imm)) EXCEPT !.pc = IF r.w >= rs THEN r.v ELSE Junk]
+  ELSE IF m \in AluOps /\ n >= 2 /\ ops[1].t = "r" /\ (\A j \in 2..n : ops[j].t \in {"r", "i", "m"}) THEN
+    SetReg(st, RK(ops[1]), JunkR)                               \* (a memory source is only read)
+  ELSE IF m \in AluOps /\ n = 2 /\ ops[1].t = "m" /\ ops[2].t \in {"r", "i"} THEN      \* read-modify-write of a memory cell
+    LET b == st.reg[BK(ops[1])].v
+        sz == IF ops[1].sz > 0 THEN ops[1].sz ELSE ops[2].sz
+    IN IF sz = 0 THEN Fault(st, "Unknown")
+       ELSE IF ~IsInt(b) THEN Fault(st, "BadAddress")
+       ELSE DoStore(O, st, b.a + ops[1].off, sz, JunkR)
+  ELSE IF m = "call" /\ n = 1 THEN       \* a callee of the function's own convention: clobbers what that convention does not preserve
+    IF ~IsInt(sp) THEN Fault(st, "BadAddress")
+    ELSE LET pres == PresRegs(O)
+         IN [st EXCEPT !.reg = [k \in DOMAIN st.reg |-> IF k = SPK(O) \/ k \in pres THEN st.reg[k] ELSE JunkR],
+                       !.mem = JunkRange(st.mem, sp.a, sp.a + Eff(O).cs)]
   ELSE Fault(st, "Unknown")
 
 (* AArch64 immediate/offset ranges (Arm ARM C6.2: LDP/STP imm7 scaled; LDR/STR imm12 scaled or imm9;        *)
@@ -285,6 +317,7 @@ BodyExec(O, st) ==
                     \/ (IsA64(c) /\ k = LRK(O) /\ k \notin dirty)   \* a leaf body leaves the link register alone
       regs == [k \in DOMAIN st.reg |-> IF keepReg(k) THEN st.reg[k] ELSE JunkR]
   IN IF ~IsInt(S) THEN Fault([st EXCEPT !.reg = regs, !.bsp = 0], "BadAddress")
+     ELSE IF Len(O.body) > 0 THEN [st EXCEPT !.bsp = S.a]       \* the real body follows: nothing is abstracted
      ELSE LET m1 == JunkRange(st.mem, S.a + F.local_off, S.a + F.local_off + e.ls)
               m2 == JunkRange(m1, S.a, S.a + e.cs)
               m3 == JunkRange(m2, S.a - F.red, S.a)
@@ -420,6 +453,23 @@ FrameRecord(O) ==
        /\ IF IsA64(O.cfg) THEN Load(mem, f.a + 8, 8) = [v |-> Entry(LRK(O)), w |-> 8]
           ELSE Load(mem, f.a + rs, rs).v = RetAddr
 
+(* every home (spill) slot of a work register lies inside the frame's local area, or coincides EXACTLY with the   *)
+(* incoming slot of the stack-passed argument the register is bound to (same address, not larger than that slot) *)
+HomeSlots(O) ==
+  AtBody(O) /\ IsInt(SpNow(O)) =>
+    \A j \in 1..Len(O.slots) :
+      LET sl == O.slots[j]
+          b == reg[<<0, sl.base>>].v
+          S == SpNow(O).a
+          e == Eff(O)
+          rs == RegSize(O.cfg)
+      IN (sl.used \/ sl.stackarg) =>
+           /\ <<0, sl.base>> \in DOMAIN reg /\ IsInt(b)
+           /\ LET lo == b.a + sl.off
+                   hi == lo + sl.size
+               IN \/ (lo >= S + O.fr.local_off /\ hi <= S + O.fr.local_off + e.ls)
+                  \/ (sl.argoff >= 0 /\ lo = esp + RetSize(O.cfg) + sl.argoff /\ sl.size <= AlignUp(Max2(sl.argsz, 1), rs))
+
 (* return: to the caller's return address, SP where the convention requires, callee-saved registers intact *)
 Completed(O) == Done(O) /\ Understood(O) /\ "Error" \notin bad => pc # NoneV
 SavedRestored(O) ==
@@ -429,7 +479,7 @@ SavedRestored(O) ==
     /\ \A k \in PresRegs(O) : reg[k].v = Entry(k) /\ reg[k].w >= PresWidth(O, k[1])
 
 InvNames == <<"Understood", "Accepted", "SpDefined", "NoWriteOutsideFrame", "AlignedInBody", "Disjoint", "StackArgs",
-              "FrameRecord", "Completed", "SavedRestored">>
+              "HomeSlots", "FrameRecord", "Completed", "SavedRestored">>
 Holds(O, n) ==
   CASE n = "Understood" -> Understood(O)
     [] n = "Accepted" -> Accepted(O)
@@ -438,6 +488,7 @@ Holds(O, n) ==
     [] n = "AlignedInBody" -> AlignedInBody(O)
     [] n = "Disjoint" -> Disjoint(O)
     [] n = "StackArgs" -> StackArgs(O)
+    [] n = "HomeSlots" -> HomeSlots(O)
     [] n = "FrameRecord" -> FrameRecord(O)
     [] n = "Completed" -> Completed(O)
     [] n = "SavedRestored" -> SavedRestored(O)
